@@ -77,6 +77,24 @@ Proof.
   - inversion R2; subst. split; [now right|]. rewrite R3. now right.
 Qed.
 
+(** ---- write-once discipline: per use, each register of a node is written by at most one
+    goroutine step ([Cc] counts the tokens that have acted: regular and hash-carrying final tokens
+    write the register of their side; a final token from the left also writes the right register) ---- *)
+Theorem registers_written_once s l i : Inv s -> l < D ->
+  Cc KR l (2 * i) s + Cc KS l (2 * i) s <= 1 /\
+  Cc KR l (2 * i + 1) s + Cc KS l (2 * i + 1) s + Cc KS l (2 * i) s + Cc KN l (2 * i) s <= 1.
+Proof.
+  intros I Hl.
+  destruct (edges_ok H HF D ws hdr s I l (Nat.lt_le_incl _ _ Hl) (2 * i)) as (A1 & A2 & A3 & A4 & A5).
+  destruct (edges_ok H HF D ws hdr s I l (Nat.lt_le_incl _ _ Hl) (2 * i + 1)) as (B1 & B2 & B3 & B4 & B5).
+  pose proof (Cc_le_Ec KR l (2 * i) s). pose proof (Cc_le_Ec KS l (2 * i) s). pose proof (Cc_le_Ec KN l (2 * i) s).
+  pose proof (Cc_le_Ec KR l (2 * i + 1) s). pose proof (Cc_le_Ec KS l (2 * i + 1) s).
+  assert (X : 2 * i <> fidx l \/ (2 * i = fidx l /\ 2 * i + 1 <> fidx l /\ fidx l < 2 * i + 1)) by lia.
+  destruct X as [X|(X1 & X2 & X3)].
+  - destruct (A4 X). lia.
+  - destruct (B4 X2). pose proof (B5 X3). lia.
+Qed.
+
 (** ---- completion: at quiescence everything has been delivered ---- *)
 Definition quiescent (s : sys) : Prop := todo s = [] /\ starts s = [] /\ live s = [].
 
